@@ -106,6 +106,10 @@ func crashed(env *vk.Env, logPath string) {
 	log := "\n" + string(b)
 	i := strings.LastIndex(log, "\npanic: ")
 	if i < 0 {
+		// the runtime's own detection of unsynchronised map access ends the process like a panic nobody can recover
+		i = strings.LastIndex(log, "\nfatal error: concurrent map ")
+	}
+	if i < 0 {
 		if j := strings.LastIndex(log, "\nfatal error: "); j >= 0 {
 			env.Infra("the first run died with a runtime fatal error: %s", vkTrunc(log[j+1:], 1500))
 		} else {
@@ -132,6 +136,11 @@ func crashed(env *vk.Env, logPath string) {
 		finish(env)
 	}
 	env.Cov.Rule = "crash analysis of a driver run that died: the Go panic in its output came out of a goroutine started by the library itself"
+	if strings.HasPrefix(msg, "fatal error: concurrent map") {
+		env.Report(fmt.Sprintf("the Go runtime ended the process: unsynchronised map access in the library (first library frame %s)", frame),
+			fmt.Sprintf("%s\n%s", msg, vkTrunc(stack, 3000)), map[string]any{"kind": "rerun", "seed": env.Seed, "tier": env.Tier})
+		finish(env)
+	}
 	env.Report(fmt.Sprintf("the library panicked in a goroutine of its own and ended the process (first library frame %s)", frame),
 		fmt.Sprintf("%s\n%s", msg, vkTrunc(stack, 3000)), map[string]any{"kind": "rerun", "seed": env.Seed, "tier": env.Tier})
 	finish(env)
